@@ -1,7 +1,7 @@
 (** C14 -- scripts execute exactly the command sequence their block structure
     prescribes; unbalanced scripts are diagnosed. Statements only. *)
 From Cicada Require Import Base.Chars Base.Peg Gen.LocustGrammar Model.Script Model.ScriptAst
-  Proofs.ScriptProofs Proofs.PegProofs.
+  Proofs.ScriptProofs Proofs.PegProofs Proofs.LocustParse.
 From Coq Require Import ZArith String Ascii.
 
 (** 1. The interpreter of scripting.rs (run_exp and its helpers, transcribed),
@@ -57,9 +57,31 @@ Ltac prove_parse_ok :=
     end
   end.
 
-Theorem C14_parse_partial :
+Theorem C14_parse_instances :
   (wfp_block wit1 = true /\ parse_ok wit1) /\ (wfp_block wit2 = true /\ parse_ok wit2).
 Proof. split; split; [vm_compute; reflexivity | prove_parse_ok | vm_compute; reflexivity | prove_parse_ok]. Qed.
+
+(** The proved fragment of C14_parse_full, UNBOUNDED: flat scripts -- any number of command lines
+    (break / continue included), no indentation; every line free of CR / LF, not starting or ending
+    with white space, not starting with `if `, `for `, `else if `, `else`, `fi`, `while `, `done`
+    ([frag_flat]).  For every such script the generic PEG interpreter on the regenerated grammar
+    returns, for all sufficiently large fuel, the complete parse whose trimmed tree is
+    tree_of_script (induction over the lines, per-rule lemmas in Proofs/LocustParse.v) ... *)
+Theorem C14_parse_partial : forall b, frag_flat b = true ->
+  exists kids,
+    evals l_grammar (PRef L_EXP) AtNon 0 (render_block b) (POk (List.length (render_block b)) nil kids) /\
+    map (fun k => strip_eoi L_EOI (annotate (render_block b) k)) kids = (tree_of_script b :: nil).
+Proof. exact parse_flat. Qed.
+
+(** ... and with the fuel parse_from computes from the input it is that result or OutOfFuel, never
+    a different tree or a failure. (The real parser has no fuel; L1a never saw OutOfFuel.) *)
+Theorem C14_parse_partial_from : forall b, frag_flat b = true ->
+  parse_from l_grammar L_EXP (render_block b) = PFuel \/ parse_ok b.
+Proof. exact parse_flat_from. Qed.
+
+Example C14_parse_partial_nonvacuous :
+  frag_flat (BCons (SCmd nil (S2 "echo a  b")) (BCons (SBreak nil) (BCons (SCmd nil (S2 "ls | wc; date")) BNil))) = true.
+Proof. vm_compute. reflexivity. Qed.
 
 (** 3. Unbalanced scripts. If the start rule is anchored at end of input, a
     successful parse has consumed the whole text (so a text whose remainder does
@@ -143,6 +165,8 @@ Proof. vm_compute. repeat split. Qed.
 
 Print Assumptions C14_interp.
 Print Assumptions C14_parse_partial.
+Print Assumptions C14_parse_partial_from.
+Print Assumptions C14_parse_instances.
 Print Assumptions C14_anchor_sound.
 Print Assumptions C14_anchored.
 Print Assumptions C14_unbalanced_diagnosed.
